@@ -195,3 +195,38 @@ Proof.
   - split; eexists; vm_compute; reflexivity.
 Qed.
 Print Assumptions C19_trigger_rowwise_nonvacuous.
+
+(* 1+2, independence: what a row becomes does not depend on the rows around it. A sheet that
+   is two sheets one after the other compiles exactly when both do, to the two results one
+   after the other (so every prefix of a sheet compiles to the prefix of the events) *)
+Theorem C19_campaign_rows_independent : forall a b evs, parse_campaign_sheet (a ++ b) = Ok evs <->
+  exists ea eb, parse_campaign_sheet a = Ok ea /\ parse_campaign_sheet b = Ok eb /\ evs = ea ++ eb.
+Proof. exact campaign_sheet_rows_independent. Qed.
+Print Assumptions C19_campaign_rows_independent.
+
+Theorem C19_trigger_rows_independent : forall a b ts, parse_trigger_sheet (a ++ b) = Ok ts <->
+  exists ta tb, parse_trigger_sheet a = Ok ta /\ parse_trigger_sheet b = Ok tb /\ ts = ta ++ tb.
+Proof. exact trigger_sheet_rows_independent. Qed.
+Print Assumptions C19_trigger_rows_independent.
+
+(* 3, sharpened: the sheet stops AT the first offending row, with that row's error, whatever
+   follows it.  (The tie compares Ok/Err and the compiled arrays, not the error kind: which
+   error is reported is a statement about the model only.) *)
+Theorem C19_campaign_first_offending_row : forall a r b ea e,
+  parse_campaign a = Ok ea -> event_of_row r = Err e -> parse_campaign (a ++ r :: b) = Err e.
+Proof. exact campaign_first_offending_row. Qed.
+Print Assumptions C19_campaign_first_offending_row.
+
+Theorem C19_trigger_first_offending_row : forall a r b ta e,
+  parse_triggers a = Ok ta -> trigger_of_row r = Err e -> parse_triggers (a ++ r :: b) = Err e.
+Proof. exact trigger_first_offending_row. Qed.
+Print Assumptions C19_trigger_first_offending_row.
+
+(* two one-row sheets that both compile, and their concatenation *)
+Example C19_rows_independent_nonvacuous :
+  exists ea eb, parse_campaign_sheet [ex_raw [72] [70] []] = Ok ea /\
+                parse_campaign_sheet [ex_raw [68] [70] []] = Ok eb /\
+                parse_campaign_sheet [ex_raw [72] [70] []; ex_raw [68] [70] []] = Ok (ea ++ eb) /\
+                length (ea ++ eb) = 2%nat.
+Proof. eexists. eexists. vm_compute. repeat split. Qed.
+Print Assumptions C19_rows_independent_nonvacuous.
